@@ -337,6 +337,7 @@ func c18Execute(c *h.Ctx, id string, cs c18Case, schedSeed int64, profile string
 	c.Count("exchanges", int64(len(s.events)))
 	c.Count("advertisement_fetches_by_routers", int64(s.nFetch))
 	c.Count("sync_interests_without_fetch", int64(s.nNoFetch))
+	c.Count("late_rib_updates_on_removed_neighbours", int64(s.nLateRib))
 	c.Sample(map[string]any{"graph": fmt.Sprintf("n=%d edges=%v", cs.n, cs.edges), "faults": cs.faults, "schedule_seed": schedSeed, "exchanges": len(s.events)})
 	return fixed
 }
